@@ -132,7 +132,7 @@ impl IndexEntry {
     ///
     /// The result has no blocks.
     pub(crate) fn metadata_from(source: &source::Entry) -> IndexEntry {
-        let mtime = source.mtime();
+        let (mtime, mtime_nanos) = crate::unix_time::floor_seconds_and_nanos(&source.mtime());
         assert_eq!(
             source.symlink_target().is_some(),
             source.kind() == Kind::Symlink
@@ -142,8 +142,8 @@ impl IndexEntry {
             kind: source.kind(),
             addrs: Vec::new(),
             target: source.symlink_target().map(|t| t.to_owned()),
-            mtime: mtime.as_second(),
-            mtime_nanos: mtime.subsec_nanosecond().try_into().unwrap(),
+            mtime,
+            mtime_nanos,
             unix_mode: source.unix_mode(),
             owner: source.owner().to_owned(),
         }
